@@ -106,6 +106,16 @@ func slotsTour(res *core.Result, r *core.RNG) (*sim, error) {
 	// a capacity whose 135% does not fit 64 bits: nothing non-negative can exceed it
 	s.send(big, t, 1<<63-1)
 	s.send(big, t+1, (1<<64-1)/135+6)
+	// capacities at which the high word of capacity*135 changes around 100 (the quotient by 100 stops
+	// fitting 64 bits there), and the largest capacity: a report within capacity is stored as it is
+	for _, c := range capBoundaries() {
+		if d := s.addDevice(c); d != nil {
+			s.res.Count("slots.capacity-boundary")
+			s.send(d, t+30, 5000)
+			s.send(d, t+31, 1<<63-1)
+			s.send(d, t+32, 1<<63)
+		}
+	}
 	s.w.SnapHop()
 	for _, d := range s.a.Devices {
 		s.w.Sync(d.ID, true)
@@ -131,6 +141,7 @@ func weeksTour(res *core.Result, r *core.RNG) (*sim, error) {
 		if now == 2016 {
 			s.send(d1, now, 9000) // over capacity -> banned slot in the second half
 		}
+		s.forceNegZero = now == 1000 || now == 2017 // -0 rates in both halves: archived, served, reloaded like any value
 		s.impactRound(nil)
 	}
 	// fill a few hundred slots of the first week: the random insert_false_negatives rewrite touches ~2% of them
@@ -569,6 +580,22 @@ func shutdownTour(res *core.Result, r *core.RNG) (*sim, error) {
 		}
 		conns = append(conns, c)
 	}
+	// the same on the HTTP port: an idle connection, a half-sent request line, and a POST whose header is
+	// complete but whose announced body never arrives (the handler is inside its JSON decode)
+	hp, _, _ := s.w.S.Ports()
+	for i, pre := range []string{"", "POST /api/v1/authorize-equipment HT",
+		"POST /api/v1/authorize-equipment HTTP/1.1\r\nHost: x\r\nContent-Type: application/json\r\nContent-Length: 400\r\n\r\n{\"ShortID\": 5, ",
+		"POST /api/v1/register-gca HTTP/1.1\r\nHost: x\r\nContent-Length: 100\r\n\r\n"} {
+		c, err := net.DialTimeout("tcp", fmt.Sprintf("127.0.0.1:%d", hp), 2*time.Second)
+		if err != nil {
+			continue
+		}
+		c.Write([]byte(pre))
+		conns = append(conns, c)
+		if i >= 2 {
+			res.Count("shutdown.http-partial-body")
+		}
+	}
 	time.Sleep(20 * time.Millisecond)
 	res.Count("shutdown.idle-connections")
 	term := s.w.CoqCase()
@@ -580,6 +607,10 @@ func shutdownTour(res *core.Result, r *core.RNG) (*sim, error) {
 	select {
 	case <-done:
 		res.Extra["close_latency_ms"] = time.Since(t0).Milliseconds()
+		if s.w.CloseErr != nil {
+			s.res.Fail(fmt.Sprintf("Close() fails after %d ms with connections left open (idle, half-sent request, POST with a body that never arrives): %v", time.Since(t0).Milliseconds(), s.w.CloseErr), "c12-shutdown-error",
+				map[string]interface{}{"open_connections": len(conns)})
+		}
 	case <-time.After(15 * time.Second):
 		s.res.Fail("Close() does not return while idle TCP connections are open (waited 15 s; the test-mode shutdown budget is 5 s)", "c12-shutdown-blocked",
 			map[string]interface{}{"idle_connections": len(conns)})
@@ -621,4 +652,19 @@ func (s *sim) registerWithWriteFault() {
 	if _, err := os.Stat(filepath.Join(w.Dir, "gcaPubKey.dat")); err == nil && !before.GCAAvailable {
 		s.fail("a failed registration left a key file behind", "c07-write-fault-file")
 	}
+}
+
+// capBoundaries: the capacities c where floor(c*135 / 2^64) steps to 99, 100, 101 and 134 (one below, at, one
+// above each step), plus the extremes.
+func capBoundaries() []uint64 {
+	var out []uint64
+	two64 := new(big.Int).Lsh(big.NewInt(1), 64)
+	for _, k := range []int64{99, 100, 101, 134} {
+		c := new(big.Int).Mul(big.NewInt(k), two64)
+		c.Add(c, big.NewInt(134))
+		c.Div(c, big.NewInt(135)) // smallest c with c*135 >= k*2^64
+		u := c.Uint64()
+		out = append(out, u-1, u, u+1)
+	}
+	return append(out, 1<<64-1, 1<<63)
 }
